@@ -299,44 +299,50 @@ def checkCase (c : Case) (st0 : Stats) : IO Stats := do
     k := k + 1
   return st
 
-partial def loop (h : IO.FS.Stream) (c : Case) (st : Stats) : IO Stats := do
-  let line ← h.getLine
-  if line.isEmpty then return st
+/-- one protocol line -/
+def feed (line : String) (c : Case) (st : Stats) : IO (Case × Stats) := do
   let line := if line.endsWith "\n" then (line.dropEnd 1).toString else line
-  if line.startsWith "V " then return ← loop h { c with vcd := c.vcd.push (line.drop 2).toString } st
-  if line == "V" then return ← loop h { c with vcd := c.vcd.push "" } st
-  if line.startsWith "W " then return ← loop h { c with tv := c.tv.push (line.drop 2).toString } st
-  if line == "W" then return ← loop h { c with tv := c.tv.push "" } st
+  if line.startsWith "V " then return ({ c with vcd := c.vcd.push (line.drop 2).toString }, st)
+  if line == "V" then return ({ c with vcd := c.vcd.push "" }, st)
+  if line.startsWith "W " then return ({ c with tv := c.tv.push (line.drop 2).toString }, st)
+  if line == "W" then return ({ c with tv := c.tv.push "" }, st)
   let toks := (line.splitOn " ").filter (· ≠ "")
   match toks with
-  | "case" :: k :: _ => loop h { id := k } { st with cases := st.cases + 1 }
-  | ["sel", s] => loop h { c with sel := s } st
+  | "case" :: k :: _ => return ({ id := k }, { st with cases := st.cases + 1 })
+  | ["sel", s] => return ({ c with sel := s }, st)
   | ["sig", _, w, bv, hid, name, path, mem] =>
     let m := if mem == "-" then none else match parsePath mem with | k :: _ => some k | [] => none
-    loop h { c with sigs := c.sigs.push { width := w.toNat!, isBVec := bv == "1", hidden := hid == "1", name := optStr name, path := parsePath path, mem := m } } st
-  | ["clk", _, id, name, v] => loop h { c with clocks := c.clocks.push (id.toNat!, optStr name), clkInit := c.clkInit.push (parseOptBool v) } st
-  | ["rstsig", _, id, name, v] => loop h { c with resets := c.resets.push (id.toNat!, optStr name), rstInit := c.rstInit.push (parseOptBool v) } st
-  | ["E", "T", n, d] => loop h { c with evs := c.evs.push (.tick n.toNat! d.toNat!) } st
+    return ({ c with sigs := c.sigs.push { width := w.toNat!, isBVec := bv == "1", hidden := hid == "1", name := optStr name, path := parsePath path, mem := m } }, st)
+  | ["clk", _, id, name, v] => return ({ c with clocks := c.clocks.push (id.toNat!, optStr name), clkInit := c.clkInit.push (parseOptBool v) }, st)
+  | ["rstsig", _, id, name, v] => return ({ c with resets := c.resets.push (id.toNat!, optStr name), rstInit := c.rstInit.push (parseOptBool v) }, st)
+  | ["E", "T", n, d] => return ({ c with evs := c.evs.push (.tick n.toNat! d.toNat!) }, st)
   | "E" :: "C" :: n :: d :: vals =>
     let vs := vals.map parseRaw
-    loop h { c with evs := c.evs.push (.commit vs), commits := c.commits.push ⟨n.toNat!, d.toNat!, vs⟩ } st
-  | ["E", "K", i, v] => loop h { c with evs := c.evs.push (.clock i.toNat! (v == "1")) } st
-  | ["E", "R", i, v] => loop h { c with evs := c.evs.push (.reset i.toNat! (v == "1")) } st
-  | ["X", "P"] => loop h { c with tevs := c.tevs.push .powerOn } st
-  | ["X", "N", p, n, d] => loop h { c with tevs := c.tevs.push (.newPhase (p == "2") (ratOf n.toNat! d.toNat!)) } st
-  | ["X", "M"] => loop h { c with tevs := c.tevs.push .microTick } st
-  | ["X", "S", du, name, bits] => loop h { c with tevs := c.tevs.push (.set (du == "1") (optStr name) (parseB4s bits)) } st
-  | ["X", "R", du, name, v] => loop h { c with tevs := c.tevs.push (.rst (du == "1") (optStr name) (v == "1")) } st
-  | ["X", "C", name, ib, bits] => loop h { c with tevs := c.tevs.push (.read (optStr name) (ib == "1") (parseB4s bits)) } st
-  | ["X", "F", n, d] => loop h { c with tevs := c.tevs.push (.finish (ratOf n.toNat! d.toNat!)) } st
-  | "Q" :: _ :: res :: _ => loop h { c with q := c.q.push (res == "ok", line) } st
+    return ({ c with evs := c.evs.push (.commit vs), commits := c.commits.push ⟨n.toNat!, d.toNat!, vs⟩ }, st)
+  | ["E", "K", i, v] => return ({ c with evs := c.evs.push (.clock i.toNat! (v == "1")) }, st)
+  | ["E", "R", i, v] => return ({ c with evs := c.evs.push (.reset i.toNat! (v == "1")) }, st)
+  | ["X", "P"] => return ({ c with tevs := c.tevs.push .powerOn }, st)
+  | ["X", "N", p, n, d] => return ({ c with tevs := c.tevs.push (.newPhase (p == "2") (ratOf n.toNat! d.toNat!)) }, st)
+  | ["X", "M"] => return ({ c with tevs := c.tevs.push .microTick }, st)
+  | ["X", "S", du, name, bits] => return ({ c with tevs := c.tevs.push (.set (du == "1") (optStr name) (parseB4s bits)) }, st)
+  | ["X", "R", du, name, v] => return ({ c with tevs := c.tevs.push (.rst (du == "1") (optStr name) (v == "1")) }, st)
+  | ["X", "C", name, ib, bits] => return ({ c with tevs := c.tevs.push (.read (optStr name) (ib == "1") (parseB4s bits)) }, st)
+  | ["X", "F", n, d] => return ({ c with tevs := c.tevs.push (.finish (ratOf n.toNat! d.toNat!)) }, st)
+  | "Q" :: _ :: res :: _ => return ({ c with q := c.q.push (res == "ok", line) }, st)
   | ["end"] =>
     let st ← checkCase c st
-    loop h {} st
-  | "skip" :: _ => loop h c st
-  | _ => loop h c st
+    return ({}, st)
+  | _ => return (c, st)
 
 def main : IO Unit := do
-  let st ← loop (← IO.getStdin) {} {}
+  let h ← IO.getStdin
+  let mut c : Case := {}
+  let mut st : Stats := {}
+  repeat
+    let line ← h.getLine
+    if line.isEmpty then break
+    let r ← feed line c st
+    c := r.1
+    st := r.2
   let sel := ",".intercalate (st.selHist.toList.map fun (k, v) => s!"\"{k}\":{v}")
   IO.println s!"SUMMARY \{\"cases\":{st.cases},\"ops\":{st.ops},\"diffs\":{st.diffs},\"propfails\":{st.propfails},\"signals\":{st.signals},\"commits\":{st.commits},\"ticks\":{st.ticks},\"vcd_lines\":{st.vcdLines},\"value_comparisons\":{st.valueCmps},\"decodeLines_queries\":{st.modelQueries},\"sampled_bits\":{st.sampledBits},\"undefined_bits\":{st.undefBits},\"scalar_signals\":{st.scalarSigs},\"vector_signals\":{st.vectorSigs},\"hidden_signals\":{st.hiddenSigs},\"memory_words\":{st.memSigs},\"signals_wider_than_64\":{st.wideSigs},\"signals_in_nested_scopes\":{st.nestedSigs},\"max_width\":{st.maxWidth},\"commits_sharing_a_ps\":{st.samePsCommits},\"tv_lines\":{st.tvLines},\"tv_groups\":{st.tvGroups},\"tv_checks\":{st.tvChecks},\"tv_sets\":{st.tvSets},\"tv_rsts\":{st.tvRsts},\"tv_sets_in_during_phase\":{st.tvDuringSets},\"tv_groups_in_empty_interval\":{st.tvEmptyIntervals},\"tv_groups_with_carried_remainder\":{st.tvNonzeroRemainders},\"replayed_statements\":{st.replayed},\"replay_failures\":{st.replayFails},\"precondition_violations\":{st.precondViolations},\"selection\":\{{sel}}}"
